@@ -26,6 +26,7 @@
 #include <iv_tls.h>
 #include <string.h>
 #include "iv_private.h"
+#include "mutex.h"
 
 /* data structures and global data ******************************************/
 struct iv_thread {
@@ -36,7 +37,16 @@ struct iv_thread {
 	unsigned long		tid;
 	void			(*start_routine)(void *);
 	void			*arg;
+	int			orphaned;
+	int			exited;
 };
+
+/*
+ * Serialises a thread's exit (iv_thread_destructor) against its creator
+ * tearing down its ivykis state while the thread is still around
+ * (iv_thread_tls_deinit_thread): whoever comes second frees the record.
+ */
+static ___mutex_t iv_thread_lock;
 
 static pthr_once_t iv_thread_key_allocated = PTHR_ONCE_INIT;
 static pthr_key_t iv_thread_key;
@@ -51,7 +61,23 @@ static void iv_thread_destructor(void *_thr)
 	if (iv_thread_debug)
 		fprintf(stderr, "iv_thread: [%s] terminating\n", thr->name);
 
+	___mutex_lock(&iv_thread_lock);
+
+	if (thr->orphaned) {
+		/*
+		 * Our creator deinitialised its event loop and dropped
+		 * its reference (and ->dead with it).
+		 */
+		___mutex_unlock(&iv_thread_lock);
+		free(thr->name);
+		free(thr);
+		return;
+	}
+
+	thr->exited = 1;
 	iv_event_post(&thr->dead);
+
+	___mutex_unlock(&iv_thread_lock);
 }
 
 static void iv_thread_allocate_key(void)
@@ -79,13 +105,33 @@ static void iv_thread_tls_deinit_thread(void *_tinfo)
 {
 	struct iv_thread_thr_info *tinfo = _tinfo;
 	struct iv_list_head *ilh;
+	struct iv_list_head *ilh2;
 
-	iv_list_for_each (ilh, &tinfo->child_threads) {
+	___mutex_lock(&iv_thread_lock);
+
+	iv_list_for_each_safe (ilh, ilh2, &tinfo->child_threads) {
 		struct iv_thread *thr;
 
 		thr = iv_list_entry(ilh, struct iv_thread, list);
 		pthr_detach(thr->thread_id);
+
+		/*
+		 * This thread's event loop is going away, so ->dead must
+		 * not be posted to (or stay pending) any more.  A thread
+		 * that has already exited left its record to us, one that
+		 * is still running frees it when it exits.
+		 */
+		iv_list_del(&thr->list);
+		iv_event_unregister(&thr->dead);
+		if (thr->exited) {
+			free(thr->name);
+			free(thr);
+		} else {
+			thr->orphaned = 1;
+		}
 	}
+
+	___mutex_unlock(&iv_thread_lock);
 }
 
 static struct iv_tls_user iv_thread_tls_user = {
@@ -97,6 +143,8 @@ static struct iv_tls_user iv_thread_tls_user = {
 static void iv_thread_tls_init(void) __attribute__((constructor));
 static void iv_thread_tls_init(void)
 {
+	___mutex_init(&iv_thread_lock);
+
 	iv_tls_user_register(&iv_thread_tls_user);
 }
 
@@ -152,6 +200,8 @@ int iv_thread_create(const char *name, void (*start_routine)(void *), void *arg)
 	thr->tid = 0;
 	thr->start_routine = start_routine;
 	thr->arg = arg;
+	thr->orphaned = 0;
+	thr->exited = 0;
 
 	ret = pthr_create(&thr->thread_id, NULL, iv_thread_handler, thr);
 	if (ret)
